@@ -107,7 +107,13 @@ func permissionInterceptor(w http.ResponseWriter, r *http.Request) bool {
 	userName := r.Header.Get(usernameHeaderKey)
 	u := auth.Get(userName)
 
-	streamPath, _ := extractStreamPathAndExt(r.URL.Path)
+	streamPath, ext := extractStreamPathAndExt(r.URL.Path)
+	if ext == ".ts" {
+		// hls 分段的请求路径是 <流路径>/<序号>.ts，权限针对的是流路径
+		if i := strings.LastIndex(streamPath, "/"); i >= 0 {
+			streamPath = streamPath[:i]
+		}
+	}
 
 	if u == nil || !u.ValidatePermission(streamPath, auth.PullRight) {
 		http.Error(w, http.StatusText(http.StatusForbidden), http.StatusForbidden)
